@@ -237,6 +237,9 @@ def pkLe (a b : Row) : Bool :=
   | none, _ => true
   | _, none => false
 
+def keyMatch (key : Option Int) (r : Row) : Bool :=
+  match key with | none => true | some k => pk r == some k
+
 /-- A multi-row statement visits the rows in primary-key order, stops at the first failing row
 and then has no effect. -/
 def runStmt (T : Table) (rows : List Row) : Stmt → Except Err (List Row)
@@ -247,7 +250,7 @@ def runStmt (T : Table) (rows : List Row) : Stmt → Except Err (List Row)
       | .skipped => .ok rows
       | .failed e => .error e) rows
   | .update ignore sets key =>
-    let targets := isort pkLe (rows.filter fun r => match key with | none => true | some k => pk r == some k)
+    let targets := isort pkLe (rows.filter (keyMatch key))
     targets.foldlM (fun rows old =>
       let others := rows.filter (fun x => pk x != pk old)
       match updateRow T ignore sets (readRow T old) others with
@@ -284,5 +287,30 @@ def Table.wf (T : Table) : Bool :=
   (List.range T.cols.length).all fun i => (defaultExpr (colSpec T i)).colsLt i
 
 def allStoredOk (T : Table) (rows : List Row) : Bool := (tableRows T rows).all (storedOk T)
+
+-- ---------------------------------------------------------------------------------------------
+-- Defect regions (decided on the table, the statement and the table contents before it).
+
+/-- Region `virtual_column_disables_checks`: the table has a virtual column and an enforced check. -/
+def Table.checksLost (T : Table) : Bool := T.hasVirtual && T.checks.any (·.enforced)
+
+/-- The IGNORE adjustment (NULL ↦ zero value in a NOT NULL column) fires on this row. -/
+def adjusts (T : Table) (ignore : Bool) (r : Row) : Bool := ignore && !(nullBad T r).isEmpty
+
+/-- Region `ignore_null_adjustment`: an IGNORE statement adjusts a NULL for some row it processes. -/
+def stmtAdjusts (T : Table) (rows : List Row) : Stmt → Bool
+  | .insert ig cols tuples =>
+    tuples.any fun vals => adjusts T ig (fillDefaults T cols vals (explicitRow T.cols.length cols vals))
+  | .update ig sets key =>
+    (rows.filter (keyMatch key)).any fun old => adjusts T ig (applySets T (readRow T old) sets)
+  | .delete _ => false
+
+/-- Statement shape assumed by the theorems (and produced by the generator): an INSERT gives no
+explicit value for a generated column (the engine rejects such statements when they are built). -/
+def stmtWf (T : Table) : Stmt → Bool
+  | .insert _ cols tuples =>
+    tuples.all fun vals => (List.range T.cols.length).all fun i =>
+      !isExplicit cols vals i || (colSpec T i).gen.expr?.isNone
+  | _ => true
 
 end Gms.RowPipe
